@@ -256,7 +256,7 @@ class Kernel:
                 cb = cands[0]
                 R = Resolver(cb)
                 rets = [x for _, x in R.return_expr()]
-                if len(rets) == 1 and rets[0][0] != 'phi':
+                if len(rets) == 1 and rets[0][0] != 'phi' and not inplace_mutations(cb, R) and not cb.cfg().loop_headers():
                     names = cb.arg_names()
                     sub = {}
                     for n, a in zip(names, args):
@@ -284,9 +284,35 @@ class Kernel:
         return None
 
 
+BENIGN_MUT = {'index_mut', 'next', 'into_iter', 'iter_mut', 'deref_mut', 'as_mut', 'borrow_mut'}
+
+
+def inplace_mutations(body, R=None):
+    """&mut uses of intermediates that the value-numbering does not model (it treats locals as values): calls that take an owned local
+    or a by-value parameter by &mut (`x *= 2.0`, `x.map_inplace(..)`, `x.fill(..)`), other than element access handled as point writes."""
+    from .effects import mut_calls
+    R = R or Resolver(body)
+    out = []
+    for w in mut_calls(body, R):
+        if w.callee.name in BENIGN_MUT:
+            continue
+        if not w.owned:
+            continue
+        # only numeric containers matter (iterators and builders are consumed, not value-numbered)
+        t = body.blocks[w.bb]['term']
+        a0 = t['args'][0]
+        ty = body.local_ty(a0['place']['local']) if a0['k'] in ('copy', 'move') else ''
+        if 'ArrayBase' in ty or 'AffFuncBase' in ty:
+            out.append(w)
+    return out
+
+
 def kernel_return(F, body):
     """The single resolved return expression of a branch-free kernel, or OutOfFragment."""
     R = Resolver(body)
+    muts = inplace_mutations(body, R)
+    if muts:
+        raise OutOfFragment('intermediate mutated in place (%s): the value at its use is not its defining expression' % muts[0].callee.short)
     rets = [e for _, e in R.return_expr()]
     if len(rets) != 1:
         raise OutOfFragment('%d return sites' % len(rets))
